@@ -1632,6 +1632,10 @@ def c16_e2e(res, wd, cases, replay_file=None):
         return 0
     report(res, bad, kn, {c["id"]: c for c in cases}, {r["id"]: r for r in rows}, "E3-device-list-e2e")
     unobs = [l for f in os.listdir(wd) if f.startswith("tlc_judge_DevSelect") for l in open(os.path.join(wd, f)) if l.startswith('<<"AUX"') or l.startswith('<< "AUX"')]
+    lk_aux = [l for l in unobs if "list_keyboards" in l]
+    unobs = [l for l in unobs if "list_keyboards" not in l]
+    if lk_aux:
+        log("AUX: end-to-end selection (not a listed property): `list_keyboards` differs from the keyboards outside the virtual tree on %d device lists, e.g. %s" % (len(lk_aux), lk_aux[0].strip()[:200]))
     if unobs:
         log("AUX: end-to-end selection: on %d device lists the binary's --verbose text is not consistent with itself (announced count vs listing); those paths are not judged from the text, "
             "selection there is judged where devices are opened (fleet / supervisor runs). e.g. %s" % (len(unobs), unobs[0].strip()[:200]))
